@@ -144,3 +144,11 @@ C13L = induction(
     "implies(i >= 0 and i <= j and mv_broken(SA, VALS, n0, N, i), "
     "mv_broken(SA, VALS, n0, N, j) and mv_emit(SA, VALS, n0, N, j) == mv_emit(SA, VALS, n0, N, i))",
 )
+
+STAB += prefix_stability("all_nz", {"XS": "Seq[Sym]", "env": "Env", "j": "Int"}, "XS", "Sym")
+C06L = induction("C06.certain_nonzero", {"XS": "Seq[Sym]", "env": "Env"}, "certain_all_nz(XS, env, j)")
+C06L += induction(
+    "C06.product_nonzero", {"XS": "Seq[Sym]", "env": "Env"},
+    "implies(all_nz(filter_potential(XS, j), env, len(filter_potential(XS, j))) and certain_all_nz(XS, env, j), prod_den(XS, env, j) != 0)",
+    uses_step=[("stab.all_nz", {"XS": "filter_potential(XS, j - 1)", "T": "[XS[j - 1]]", "env": "env", "j": "len(filter_potential(XS, j - 1))"})],
+)
